@@ -1,11 +1,11 @@
 #!/bin/bash
 # Must-pass corpus: behaviour-preserving edits under /verif/harmless/<name>/ on which the property's quick check
-# must not report a violation. usage: harmless.sh  -> prints one line per edit and writes /verif/harmless_last.txt
+# must not report a violation (UNDECIDED, exit 2, is tolerated: "clause cannot be stated on the current code").
+# Each edit is applied to a scratch worktree of /repo's HEAD (seedwt.sh); /repo is not touched.
+# usage: harmless.sh [jobs]  -> prints one line per edit and writes /verif/harmless_last.txt
 cd /verif || exit 2
-: > /verif/harmless_last.txt
+jobs=${1:-3}
 for d in /verif/harmless/*/; do
   n=$(basename $d); id=$(python3 -c "import json;print(json.load(open('$d/meta.json'))['property'])")
-  out=$(/verif/seedtest.sh $id $d/patch.diff 2>&1 | tail -4)
-  v=$(echo "$out" | grep -c "^VIOLATION"); u=$(echo "$out" | grep -c "^UNDECIDED"); e=$(echo "$out" | grep -o "exit=[0-9]*")
-  echo "$n ($id): violations=$v undecided=$u $e" | tee -a /verif/harmless_last.txt
-done
+  echo "$id ${d}patch.diff $n"
+done | xargs -P "$jobs" -L1 /verif/seedwt.sh 2>&1 | sed 's/MISSED(rc=0)/GREEN/; s/MISSED(rc=2)/UNDECIDED/; s/CAUGHT/FALSE-ALARM/' | sort -k2 | cut -c1-200 | tee /verif/harmless_last.txt
